@@ -106,6 +106,13 @@ func replay12() []replayResult {
 	}
 	out = append(out, replayResult{Mode: "replay", ID: "C12-limit-pushdown", Fails: res.Outcome == "ok" && !eqStrings(obs, []string{"3"}), Observed: append([]string{res.Outcome}, obs...)})
 
+	// LIMIT push-down drops rows: 2 of the 3 triples match the clause, LIMIT 2 returns 1 row
+	pt, _ := predicate.NewTemporal("t", mustTime("2020-01-01T00:00:00Z"))
+	st2 := newGraph(ctx, "?g", []*triple.Triple{mk("a", pt, 1), mk("b", pv, 2), mk("c", pt, 3)})
+	res, _ = runQuery(ctx, st2, `SELECT ?s, ?o FROM ?g WHERE {?s "t"@[?t] ?o} LIMIT "2"^^type:int64;`)
+	out = append(out, replayResult{Mode: "replay", ID: "C12-limit-pushdown-count", Fails: res.Outcome == "ok" && len(res.Rows) != 2,
+		Observed: []string{res.Outcome, fmt.Sprint(len(res.Rows))}})
+
 	// negative LIMIT
 	res, _ = runQuery(ctx, st, `SELECT ?o FROM ?g WHERE {?s "v"@[] ?o} LIMIT "-1"^^type:int64;`)
 	out = append(out, replayResult{Mode: "replay", ID: "C12-negative-limit", Fails: res.Outcome != "parse", Observed: []string{res.Outcome, res.Detail}})
